@@ -35,6 +35,8 @@ typedef struct fdir {
 } fdir_t;
 
 #define FMAXD 5
+#define FMT_MAXLEN 9216
+#define LIT_LONG 200   /* fdir_t.lit value: 4100 blanks instead of a table literal */
 typedef struct fcase {
     int ent;
     int nd;
@@ -65,7 +67,7 @@ typedef struct fres {
     int sent_changed;         /* some sentinel block changed */
     int n_real;               /* number of real n directives in the format */
     int n_lookalike;
-    char fmt[512];
+    char fmt[FMT_MAXLEN];
     long canary_bad;
 } fres_t;
 
